@@ -6,6 +6,7 @@ import (
 	"context"
 	"crypto/tls"
 	"encoding/json"
+	"errors"
 	"fmt"
 	"net"
 	"runtime"
@@ -1079,6 +1080,126 @@ func c19replay(r *vrun.Run, raw json.RawMessage) {
 		c19runMalformed(r, c.Ver, c.Reps, c.Mut, c.Order, c.Client)
 	case "redirect":
 		c19runRedirect(r, c.Script, c.Max, c.API)
+	case "selfview":
+		c19selfView(r, c.Ver, 12)
+	}
+}
+
+// ---- self-view topologies: every node reports ITSELF with an empty endpoint ("the host you reached me on") and the
+// other nodes with their addresses. After refreshes answered by whichever node is fastest, every slot range must map to
+// its primary's real address and one GET per primary must reach that primary.
+var c19svNodes = [3]string{"10.1.0.1:7001", "10.2.0.2:7002", "10.3.0.3:7003"}
+var c19svRanges = [3][2]int64{{0, 5460}, {5461, 10922}, {10923, 16383}}
+
+func c19svReply(ver, self int) RedisResult {
+	var entries []c19m
+	for i, a := range c19svNodes {
+		host, port, _ := net.SplitHostPort(a)
+		p, _ := strconv.ParseInt(port, 10, 64)
+		ep := host
+		if i == self {
+			ep = ""
+		}
+		if ver < 8 {
+			entries = append(entries, c19A(c19I(c19svRanges[i][0]), c19I(c19svRanges[i][1]), c19A(c19S(ep), c19I(p), c19S(fmt.Sprintf("id%d", i)), c19A())))
+			continue
+		}
+		node := c19m{T: typeMap, A: true, K: []c19m{c19S("id"), c19S(fmt.Sprintf("id%d", i)), c19S("port"), c19I(p), c19S("ip"), c19S(host), c19S("endpoint"), c19S(ep), c19S("role"), c19S("master"), c19S("replication-offset"), c19I(1), c19S("health"), c19S("online")}}
+		entries = append(entries, c19m{T: typeMap, A: true, K: []c19m{c19S("slots"), c19A(c19I(c19svRanges[i][0]), c19I(c19svRanges[i][1])), c19S("nodes"), c19A(node)}})
+	}
+	return NewResult(c19A(entries...).msg(), nil)
+}
+
+func c19selfView(r *vrun.Run, ver int, rounds int) {
+	var mu sync.Mutex
+	var log []c19send
+	connFn := func(dst string, _ *ClientOption) conn {
+		m := &mockConn{}
+		m.AddrFn = func() string { return dst }
+		m.VersionFn = func() int { return ver }
+		self := -1
+		for i, a := range c19svNodes {
+			if a == dst {
+				self = i
+			}
+		}
+		m.DoFn = func(cmd Completed) RedisResult {
+			argv := cmd.Commands()
+			if len(argv) == 2 && argv[0] == "CLUSTER" {
+				if self < 0 {
+					return NewErrorResult(errors.New("c19: no such node " + dst))
+				}
+				return c19svReply(ver, self)
+			}
+			mu.Lock()
+			log = append(log, c19send{Addr: dst, API: "Do", Argv: append([]string(nil), argv...)})
+			mu.Unlock()
+			return NewResult(c19okmsg, nil)
+		}
+		return m
+	}
+	rc := c19case{Kind: "selfview", Ver: ver}
+	var cl *clusterClient
+	p, site := vrun.Catch(func() {
+		var err error
+		cl, err = newClusterClient(&ClientOption{InitAddress: []string{c19svNodes[0]}}, connFn, newRetryer(func(int, Completed, error) time.Duration { return -1 }))
+		if err != nil {
+			panic(fmt.Sprintf("harness: cluster constructor failed: %v", err))
+		}
+	})
+	if p != nil {
+		r.Violate("selfview: panic in "+site, fmt.Sprint(p), rc)
+		return
+	}
+	defer cl.Close()
+	for round := 0; round <= rounds; round++ {
+		r.Evaluations++
+		if round > 0 {
+			if err := cl.refresh(context.Background()); err != nil {
+				r.Violate("selfview: refresh failed although every node answers", err.Error(), rc)
+				return
+			}
+		}
+		cl.mu.RLock()
+		bad := ""
+		for i, rg := range c19svRanges {
+			for _, slot := range []int64{rg[0], (rg[0] + rg[1]) / 2, rg[1]} {
+				cc := cl.wslots[slot]
+				if cc == nil || cc.Addr() != c19svNodes[i] {
+					got := "<nil>"
+					if cc != nil {
+						got = cc.Addr()
+					}
+					bad = fmt.Sprintf("slot %d is mapped to %s, its primary is %s", slot, got, c19svNodes[i])
+				}
+			}
+		}
+		cl.mu.RUnlock()
+		if bad != "" {
+			r.Outcome("selfview: slot table wrong")
+			r.Violate(fmt.Sprintf("selfview (v%d): a node that reports itself with an empty endpoint is mapped to another host", ver), fmt.Sprintf("after refresh round %d: %s", round, bad), rc)
+			return
+		}
+		for i, rg := range c19svRanges {
+			k := ""
+			for n := 0; k == ""; n++ { // some key whose slot lies in this node's range
+				if sl := int64(cmds.Slot("sv" + strconv.Itoa(n))); sl >= rg[0] && sl <= rg[1] {
+					k = "sv" + strconv.Itoa(n)
+				}
+			}
+			mu.Lock()
+			log = nil
+			mu.Unlock()
+			cl.Do(context.Background(), cl.B().Get().Key(k).Build())
+			mu.Lock()
+			ok := len(log) == 1 && log[0].Addr == c19svNodes[i]
+			mu.Unlock()
+			if !ok {
+				r.Violate(fmt.Sprintf("selfview (v%d): keyed command did not reach its slot's primary", ver), fmt.Sprintf("round %d: GET %s (slot of node %s) went to %v", round, k, c19svNodes[i], log), rc)
+				return
+			}
+		}
+		r.Outcome("selfview: table and routing correct after a refresh")
 	}
 }
 
@@ -1090,7 +1211,14 @@ func TestVerif_C19(t *testing.T) {
 			"client: the same replies served to a real clusterClient over mockConn: slot table at 11 probe slots, one GET per boundary slot (log of the fake nodes), then a rotated layout + synchronous refresh. " +
 			"malformed: every (path, op) mutation of one entry (ops " + strings.Join(c19ops, ",") + ") before / after an intact entry or as the whole reply, through the parser and through a client. " +
 			"redirect: every chain of 0..3 replies from {MOVED, ASK} x {owner, 2nd primary, 3rd primary, address outside the topology} then OK, x MaxMovedRedirections {0,1,2} x {Do, DoCache, DoMulti, DoMultiCache, and the two batch APIs with a second command for another node}. " +
+			"selfview: three primaries on distinct hosts, every node reports itself with an empty endpoint (CLUSTER SLOTS and CLUSTER SHARDS); after the initial and 12 (thorough 40) further refreshes answered by whichever connection is fastest the slot table and one GET per primary are checked. " +
 			"non-trivial = topology with a gap, several ranges per shard, a perturbed node or TLS; malformed cases whose mutation applies; chains with >= 1 redirect."
+		if r.Mine(0) {
+			for _, ver := range []int{7, 8} {
+				c19selfView(r, ver, vrun.Pick(r, 12, 40))
+			}
+		}
+		r.Assume("selfview: the arrival order of the concurrent CLUSTER SLOTS/SHARDS replies of one refresh is not controlled in this (plain) build; the oracle does not depend on it and every run exercises 12 (thorough 40) refresh rounds per protocol version")
 		r.Assume("CLUSTER SLOTS: NULL or empty endpoint = the host the command was sent to, '?' = unknown (Redis documentation); CLUSTER SLOTS carries no health, so health is only varied for CLUSTER SHARDS")
 		r.Assume("a shard whose primary is unhealthy or has no endpoint serves no slot (nothing weaker can be demanded: there is no primary to map the range to)")
 		r.Assume("with a TLS client the tls-port (> 0) of CLUSTER SHARDS is the port to dial, otherwise port")
